@@ -1188,3 +1188,240 @@ func TestVerifC14Race(t *testing.T) {
 		m.Progress()
 	}
 }
+
+// ---------------------------------------------------------------------------
+// TestVerifC14RaceMultiPicker: gRPC calls Build on every resolver / connection
+// state change and the previous picker keeps serving in-flight picks, and every
+// client has its own picker: several pickers built by the SAME builder are used
+// concurrently. The pickers are used exactly as built (no reseeding, no sorting).
+
+func TestVerifC14RaceMultiPicker(t *testing.T) {
+	logx.Disable()
+	m := vk.New(t, "C14", "several pickers (2..6) built by one p2cPickerBuilder over 3..8 fake ready SubConns each, used as built (PRNG untouched) by 16 concurrent callers under the race detector; every Pick is recovered: no panic, picked SubConn belongs to the ready set of THAT picker, Done callable; at quiescence inflight==0 everywhere")
+	defer m.Done()
+	defer timex.VerifRealClock()
+	rounds := vk.N(6, 40)
+	iters := vk.N(4000, 20000)
+	const workers = 16
+	master := m.Rand("multipicker")
+	for idx := 1; idx <= rounds; idx++ {
+		np := 2 + master.Intn(5)
+		nc := 3 + master.Intn(6)
+		seed := master.Int63()
+		if !m.Only(idx) {
+			continue
+		}
+		desc := fmt.Sprintf("case=%d;{\"pickers\":%d,\"conns\":%d,\"workers\":%d,\"iters\":%d,\"seed\":%d}", idx, np, nc, workers, iters, seed)
+		m.Current(desc)
+		timex.VerifFakeClock(c14Start)
+		builder := new(p2cPickerBuilder)
+		type pk struct {
+			p     balancer.Picker
+			ready map[balancer.SubConn]bool
+		}
+		var pks []pk
+		for j := 0; j < np; j++ {
+			ready := make(map[balancer.SubConn]base.SubConnInfo, nc)
+			set := make(map[balancer.SubConn]bool, nc)
+			for i := 0; i < nc; i++ {
+				sc := &c14Conn{id: j*100 + i}
+				ready[sc] = base.SubConnInfo{Address: resolver.Address{Addr: fmt.Sprintf("p%d-b%03d", j, i)}}
+				set[sc] = true
+			}
+			pks = append(pks, pk{p: builder.Build(base.PickerBuildInfo{ReadySCs: ready}), ready: set})
+		}
+		var stop int32
+		var nPicks, nPanics int64
+		var wg sync.WaitGroup
+		for w := 0; w < workers; w++ {
+			wg.Add(1)
+			go func(w int) {
+				defer wg.Done()
+				r := rand.New(rand.NewSource(seed + int64(w)*104729))
+				for it := 0; it < iters && atomic.LoadInt32(&stop) == 0; it++ {
+					k := pks[r.Intn(len(pks))]
+					var res balancer.PickResult
+					var err error
+					val, panicked := vk.Recover(func() { res, err = k.p.Pick(c14PickInfo) })
+					atomic.AddInt64(&nPicks, 1)
+					if panicked {
+						atomic.AddInt64(&nPanics, 1)
+						m.Violate("C14:pick:panic", desc, "Pick panicked with %d pickers of one builder in concurrent use: %v", np, val)
+						atomic.StoreInt32(&stop, 1)
+						return
+					}
+					if err != nil || !k.ready[res.SubConn] || res.Done == nil {
+						m.Violate("C14:pick:not-a-ready-conn", desc, "concurrent multi-picker Pick returned SubConn %v err %v (done nil=%v): not a ready connection of that picker", res.SubConn, err, res.Done == nil)
+						atomic.StoreInt32(&stop, 1)
+						return
+					}
+					if r.Intn(4) == 0 {
+						timex.VerifAdvance(time.Duration(r.Intn(3000)) * time.Microsecond)
+					}
+					var derr error
+					if r.Intn(5) == 0 {
+						derr = c14Fail1.err
+					}
+					res.Done(balancer.DoneInfo{Err: derr})
+				}
+			}(w)
+		}
+		if !vk.Within(240*time.Second, wg.Wait) {
+			m.Inconclusive("case %d: workers did not finish within 240 s", idx)
+			return
+		}
+		if atomic.LoadInt32(&stop) == 0 {
+			for j, k := range pks {
+				if p, ok := k.p.(*p2cPicker); ok {
+					for _, c := range p.conns {
+						s := c14Read(c)
+						if s.inflight != 0 {
+							m.Violate("C14:inflight:not-picks-minus-completions", desc, "at quiescence picker %d backend %s inflight=%d", j, c.addr.Addr, s.inflight)
+						}
+						if s.success > initSuccess {
+							m.Violate("C14:success:out-of-range", desc, "at quiescence picker %d backend %s success=%d", j, c.addr.Addr, s.success)
+						}
+					}
+				}
+			}
+		}
+		m.Count("multipicker_picks", atomic.LoadInt64(&nPicks))
+		m.Count("multipicker_rounds", 1)
+		if m.WantSample() {
+			m.Sample(map[string]any{"scenario": desc, "picks": atomic.LoadInt64(&nPicks), "panics": atomic.LoadInt64(&nPanics)})
+		}
+		m.Case(vk.Digest(desc), atomic.LoadInt64(&nPicks) > 0)
+		m.Progress()
+	}
+}
+
+// ---------------------------------------------------------------------------
+// TestVerifC14RaceBigSteps: completions of one connection racing while the
+// virtual clock moves in large steps (1 ms .. 30 s) between every pick and its
+// done: the time delta seen by a completion depends on the order in which the
+// racing completions read the clock and publish their stamp.
+
+func TestVerifC14RaceBigSteps(t *testing.T) {
+	logx.Disable()
+	m := vk.New(t, "C14", "16 concurrent callers on 1..3 connections, each call: Pick, advance the shared virtual clock by a random 1 ms..30 s, Done (random error kind); race detector on; after every own Done: 0<=success<=1000 and lag <= the largest latency bracket seen so far by anybody (+ the caller's own bracket); at quiescence inflight==0, success in range, lag within the bracket of observed latencies")
+	defer m.Done()
+	defer timex.VerifRealClock()
+	rounds := vk.N(6, 40)
+	iters := vk.N(8000, 60000)
+	const workers = 16
+	master := m.Rand("bigsteps")
+	for idx := 1; idx <= rounds; idx++ {
+		n := 1 + (idx-1)%3
+		seed := master.Int63()
+		if !m.Only(idx) {
+			continue
+		}
+		desc := fmt.Sprintf("case=%d;{\"n\":%d,\"workers\":%d,\"iters\":%d,\"seed\":%d}", idx, n, workers, iters, seed)
+		m.Current(desc)
+		timex.VerifFakeClock(c14Start)
+		p, cidx, err := c14NewPicker(n, seed)
+		if err != nil {
+			m.Inconclusive("case %d: %v", idx, err)
+			return
+		}
+		var stop int32
+		var nDone int64
+		los := make([][]int64, workers)
+		his := make([][]int64, workers)
+		var wg sync.WaitGroup
+		for w := 0; w < workers; w++ {
+			los[w], his[w] = make([]int64, n), make([]int64, n)
+			for i := range los[w] {
+				los[w][i] = -1
+			}
+			wg.Add(1)
+			go func(w int) {
+				defer wg.Done()
+				r := rand.New(rand.NewSource(seed + int64(w)*7919))
+				for it := 0; it < iters && atomic.LoadInt32(&stop) == 0; it++ {
+					t0 := int64(timex.Now())
+					res, err := p.Pick(c14PickInfo)
+					t1 := int64(timex.Now())
+					i, ok := cidx[res.SubConn]
+					if err != nil || !ok || res.Done == nil {
+						m.Violate("C14:pick:not-a-ready-conn", desc, "concurrent Pick returned SubConn %v err %v", res.SubConn, err)
+						atomic.StoreInt32(&stop, 1)
+						return
+					}
+					var step time.Duration
+					switch x := r.Intn(10); {
+					case x < 3:
+						step = time.Duration(1+r.Intn(1000)) * time.Millisecond
+					case x < 6:
+						step = time.Duration(1+r.Intn(10)) * time.Second
+					default:
+						step = time.Duration(10+r.Intn(21)) * time.Second
+					}
+					timex.VerifAdvance(step)
+					k := c14OK
+					if r.Intn(2) == 0 {
+						k = c14Errs[1+r.Intn(len(c14Errs)-1)]
+					}
+					c := p.conns[i]
+					t2 := int64(timex.Now())
+					res.Done(balancer.DoneInfo{Err: k.err})
+					t3 := int64(timex.Now())
+					atomic.AddInt64(&nDone, 1)
+					s := c14Read(c)
+					lo, hi := t2-t1, t3-t0
+					if los[w][i] < 0 || lo < los[w][i] {
+						los[w][i] = lo
+					}
+					if hi > his[w][i] {
+						his[w][i] = hi
+					}
+					if s.success > initSuccess {
+						m.Violate("C14:success:out-of-range", desc, "concurrent completions with large clock steps: backend %d success=%d after Done(%s)", i, s.success, k.name)
+						atomic.StoreInt32(&stop, 1)
+						return
+					}
+					// any latency observed so far is below the virtual time elapsed since the start
+					if s.lag > uint64(t3-int64(c14Start))+1 {
+						m.Violate("C14:lag:outside-observed-latencies", desc, "concurrent completions with large clock steps: backend %d lag=%d exceeds the whole elapsed virtual time %d", i, s.lag, t3-int64(c14Start))
+						atomic.StoreInt32(&stop, 1)
+						return
+					}
+				}
+			}(w)
+		}
+		if !vk.Within(240*time.Second, wg.Wait) {
+			m.Inconclusive("case %d: workers did not finish within 240 s", idx)
+			return
+		}
+		if atomic.LoadInt32(&stop) == 0 {
+			for i, c := range p.conns {
+				s := c14Read(c)
+				lo, hi := int64(-1), int64(0)
+				for w := range los {
+					if los[w][i] >= 0 && (lo < 0 || los[w][i] < lo) {
+						lo = los[w][i]
+					}
+					if his[w][i] > hi {
+						hi = his[w][i]
+					}
+				}
+				if s.inflight != 0 {
+					m.Violate("C14:inflight:not-picks-minus-completions", desc, "at quiescence backend %d inflight=%d", i, s.inflight)
+				}
+				if s.success > initSuccess {
+					m.Violate("C14:success:out-of-range", desc, "at quiescence backend %d success=%d", i, s.success)
+				}
+				if lo >= 0 && (int64(s.lag)+1 < lo || int64(s.lag) > hi+1 || s.lag > 1<<62) {
+					m.Violate("C14:lag:outside-observed-latencies", desc, "at quiescence backend %d lag=%d outside the bracket [%d,%d] of observed latencies", i, s.lag, lo, hi)
+				}
+			}
+		}
+		m.Count("bigsteps_completions", atomic.LoadInt64(&nDone))
+		m.Count("bigsteps_rounds", 1)
+		if m.WantSample() {
+			m.Sample(map[string]any{"scenario": desc, "completions": atomic.LoadInt64(&nDone), "virtual_seconds_elapsed": (int64(timex.Now()) - int64(c14Start)) / 1e9})
+		}
+		m.Case(vk.Digest(desc), atomic.LoadInt64(&nDone) > 0)
+		m.Progress()
+	}
+}
